@@ -10,7 +10,7 @@ package swisscard
 // the number read from the fourth column (after the replacer removed "CHF" and the thousands separators).
 // Other records add nothing. Quiet: nothing is written to the process's standard output.
 // Well-formedness assumption of the property (not established by the caller): every record has 11 fields.
-//@ def wfParserSC(p *parser) bool := p != nil && p.reader != nil && p.registry != nil && p.registry.accounts != nil && wfCommodities(p.registry.commodities)
+//@ def wfParserSC(p *parser) bool := p != nil && p.reader != nil && p.registry != nil && wfAccounts(p.registry.accounts) && wfCommodities(p.registry.commodities)
 //@     && p.registry.accounts.index != p.registry.commodities.index && wfBuilder(p.builder) && validAccount(p.account)
 //
 //@ func (*parser).parseBooking
